@@ -1,6 +1,7 @@
 package main
 
 import (
+	"bytes"
 	"encoding/binary"
 	"errors"
 	"fmt"
@@ -72,10 +73,6 @@ func (s *simStore) Load(key uint) ([]byte, error) {
 }
 
 func (s *simStore) Save(key uint, value net.Buffers) error {
-	var v []byte
-	for _, b := range value {
-		v = append(v, b...)
-	}
 	s.mu.Lock()
 	defer s.mu.Unlock()
 	for s.gate {
@@ -84,6 +81,11 @@ func (s *simStore) Save(key uint, value net.Buffers) error {
 		s.cond.Wait()
 	}
 	s.atGate = false
+	// The value is taken when the store gets to it (it must stay intact for as long as Save runs), and in the way the
+	// FileSystem store takes it: net.Buffers.WriteTo, which consumes the vector it is given.
+	var buf bytes.Buffer
+	value.WriteTo(&buf)
+	v := append([]byte(nil), buf.Bytes()...)
 	if s.fSave {
 		s.fSave = false
 		s.log.add("ev savefail %x", key)
